@@ -2,6 +2,7 @@ package zzverif
 
 import (
 	"context"
+	"strings"
 
 	"github.com/luthersystems/elps/lisp"
 )
@@ -10,6 +11,7 @@ func init() {
 	verifRegister("VerifC04_EBudget", VerifC04_EBudget)
 	verifRegister("VerifC04_EHeights", VerifC04_EHeights)
 	verifRegister("VerifC04_ECancel", VerifC04_ECancel)
+	verifRegister("VerifC04_EFresh", VerifC04_EFresh)
 	verifRegister("VerifC05_EClean", VerifC05_EClean)
 	verifRegister("VerifC05_EPanic", VerifC05_EPanic)
 }
@@ -83,6 +85,68 @@ func VerifC04_EBudget() {
 		vAssert(env1.Runtime.Steps() <= 3, "the step counter restarted")
 	}
 	vAssert(env1.Runtime.TotalSteps() >= env1.Runtime.Steps(), "lifetime total includes the current evaluation")
+	vCover("end")
+}
+
+// One step-limited Runtime, a solver-chosen sequence of top-level evaluations of every kind (empty
+// and comment-only loads, nested empty loads, erroring and unparsable sources, Eval, FunCall, budget
+// exhaustion with and without a swallowing form): each evaluation behaves exactly as it does as the
+// FIRST evaluation of a fresh Runtime with the same budget — same outcome, same effects, same step
+// count — i.e. nothing an earlier evaluation did eats into a later one's budget.
+var freshKinds = []string{
+	"",
+	"; only a comment\n",
+	"(load-string \"\")",
+	"(probe 'x) (+ 1 2)",
+	"(error 'boom 1)",
+	"(probe 'p",
+	"#eval (probe 'e)",
+	"(dotimes (i 6) (probe i))",
+	"#funcall",
+	"(ignore-errors (dotimes (i 6) (probe i)))",
+	"(load-string \"; c\") (probe 'y)",
+	"(in-package 'user) (probe 'k)",
+	"(load-bytes (to-bytes \"\"))",
+	"#loadreader",
+}
+
+func freshStep(env *lisp.LEnv, kind int) *lisp.LVal {
+	src := freshKinds[kind]
+	switch src {
+	case "#funcall":
+		return env.FunCall(env.Get(lisp.Symbol("probe")), lisp.SExpr([]*lisp.LVal{lisp.Int(7)}))
+	case "#loadreader":
+		return env.Load("r", stringsReader("  \n"))
+	}
+	if strings.HasPrefix(src, "#eval ") {
+		return evalSrc(env, src[6:])
+	}
+	return env.LoadString("step", src)
+}
+
+func VerifC04_EFresh() {
+	steps := vParam("steps", 2)
+	n := vndInt64("budget")
+	vAssume(n >= 1)
+	vAssume(n <= 64)
+	ps := &probeState{}
+	env := newEnv(ps, lisp.WithMaxSteps(n))
+	for i := 0; i <= steps; i++ {
+		k := vConcInt(vndChoice("kind"+itoa(i), len(freshKinds)))
+		vObserve("kind"+itoa(i), k)
+		ps.effects, ps.steps = nil, nil
+		r := freshStep(env, k)
+		used := env.Runtime.Steps()
+		psf := &probeState{}
+		envf := newEnv(psf, lisp.WithMaxSteps(n))
+		rf := freshStep(envf, k)
+		vAssert(outcome(r) == outcome(rf), "evaluation "+itoa(i)+" on a used runtime ends as on a fresh one: "+outcome(r)+" / "+outcome(rf))
+		vAssert(sameStrings(ps.effects, psf.effects), "with the same effects")
+		if envf.Runtime.Steps() > 0 { // a source with no forms evaluates nothing and leaves the counter alone
+			vAssert(used == envf.Runtime.Steps(), "and the same number of steps counted against its budget")
+		}
+		cleanRuntime(env, "user")
+	}
 	vCover("end")
 }
 
@@ -198,6 +262,10 @@ func VerifC05_EClean() {
 		"(in-package 'p2) (export 'pf) (defun pf () (set 'x 7)) (in-package 'user) (set 'x 1) (p2:pf) (set 'y 3)",
 		"(set 'x 1) (defmacro m (a) (quasiquote (set 'x (unquote a)))) (m 4) (dotimes (i 2) (set 'y i))",
 		"(set 'x 1) (ignore-errors (set 'x 2) (error 'e 1)) (let ((q 1)) (set 'y (+ q 2)))",
+		// calls into another package whose bodies are empty, end in an empty-bodied call, or fail
+		"(set 'x 1) (other:noop) (set 'y 3)",
+		"(set 'x 1) ((other:lam)) (other:viaempty) (set 'y 3)",
+		"(set 'x 1) (ignore-errors (other:noop) (other:failing)) (handler-bind ((condition (lambda (c &rest a) (other:noop)))) (other:failing)) (set 'y 3)",
 	}
 	pi := vndChoice("prog", vParam("nprogs", len(progs)))
 	entry := vndChoice("entry", 6)
@@ -205,7 +273,10 @@ func VerifC05_EClean() {
 	vAssume(n >= 1)
 	ps := &probeState{}
 	env := newEnv(ps, lisp.WithMaxSteps(n))
-	env.LoadString("defs", "(in-package 'other) (in-package 'user)")
+	lisp.WithMaxSteps(0)(env)
+	dr := env.LoadString("defs", "(in-package 'other) (export 'noop 'lam 'viaempty 'failing) (defun noop ()) (defun lam () (lambda ())) (defun viaempty () (set 'w 1) (noop)) (defun failing () (noop) (error 'other-failed 1)) (in-package 'user)")
+	vAssert(dr.Type != lisp.LError, "prelude loads: "+outcome(dr))
+	lisp.WithMaxSteps(n)(env)
 	var r *lisp.LVal
 	switch entry {
 	case 0:
@@ -244,6 +315,18 @@ func VerifC05_EClean() {
 		vAssert(chk.Type == lisp.LInt && chk.Int == 5, "a later evaluation runs normally")
 	}
 	cleanRuntime(env, "user")
+	// whatever the program completed, it bound in ITS package: nothing leaked into the other one,
+	// and a binding made now lands in user
+	lisp.WithMaxSteps(0)(env)
+	for _, name := range []string{"x", "y"} {
+		if pi != 3 && pi != 4 {
+			leak := evalSrc(env, "other:"+name)
+			vAssert(leak.Type == lisp.LError, "the program's own top-level bindings never land in another package: other:"+name+" = "+outcome(leak))
+		}
+	}
+	evalSrc(env, "(set 'later 42)")
+	lt := evalSrc(env, "user:later")
+	vAssert(lt.Type == lisp.LInt && lt.Int == 42, "a binding made by a later evaluation lands in the user package")
 	vCover("end")
 }
 
